@@ -428,6 +428,10 @@ class Table:
             if key in ['=','!=','<=','<','>','>=','match','in','!in']:
                 comparison,arg = key,value
 
+        #nothing can be selected from an empty range (an empty table or view), and
+        #both the bisect helpers and 'match' look at an element of the range
+        if lo == hi: return []
+
         if method != "bisect" or callable(arg):
             col = col[lo:hi]
 
